@@ -1445,6 +1445,9 @@ func (vx *Vaxis) openTty(tgts []*os.File) error {
 
 	vx.tw = newWriter(vx)
 	vx.parser = ansi.NewParser(vx.console)
+	// The goroutine reads from the parser it was started for: after a
+	// Suspend it may still be on its way out when Resume installs a new one
+	parser := vx.parser
 
 	go func() {
 		defer func() {
@@ -1455,7 +1458,7 @@ func (vx *Vaxis) openTty(tgts []*os.File) error {
 		}()
 		for {
 			select {
-			case seq, ok := <-vx.parser.Next():
+			case seq, ok := <-parser.Next():
 				if !ok {
 					// Suspend drained the parser and took its EOF
 					return
@@ -1466,7 +1469,7 @@ func (vx *Vaxis) openTty(tgts []*os.File) error {
 				default:
 					verifHook("input.seq")
 					vx.handleSequence(seq)
-					vx.parser.Finish(seq)
+					parser.Finish(seq)
 				}
 			case <-vx.chSigWinSz:
 				atomicStore(&vx.resize, true)
